@@ -60,6 +60,14 @@ def fault_specs(progs, sem, tier, rng):
                 specs.append(psrun.make_spec(p, sem[p["name"]], {"kind": "slow", "slow": hub, "seed": rng.randrange(1 << 30), "penv": 0.9},
                                              name="%s#hub" % p["name"], faults={"%s/%s/%d" % (i["inst"], i["kind"], i["chunk"]): "errors"},
                                              restart=True))
+        # a job that sends a heartbeat and then dies without a trace: only the heartbeat
+        # time-out (the driver lets 61 minutes pass once nothing moves) can fail it
+        if p["name"] in ("chain", "split2", "map_dyn2", "diamond", "subpipe", "map_dynkeys_split") and jobs:
+            for n in range({"quick": 2, "thorough": 10}[tier]):
+                i = rng.choice(jobs)
+                specs.append(psrun.make_spec(p, sem[p["name"]], {"kind": "random", "seed": rng.randrange(1 << 30), "penv": rng.choice([0.4, 0.8])},
+                                             name="%s#hb%d" % (p["name"], n),
+                                             faults={"%s/%s/%d" % (i["inst"], i["kind"], i["chunk"]): "vanish-heartbeat"}, restart=True))
         for n, (key, kind) in enumerate(chosen[:max(per_prog, len(seen))]):
             sc = {"kind": "random", "seed": rng.randrange(1 << 30), "penv": rng.choice([0.3, 0.6, 0.9])}
             specs.append(psrun.make_spec(p, sem[p["name"]], sc, name="%s#f%d" % (p["name"], n),
@@ -246,7 +254,7 @@ def run(tier, replay=None):
         "monitor_records": len(records), "known_findings_hit": hit,
         "process_runs_with_persistent_faults": proc_report, "retry_table_runs": retry_report, "retry_model_states": retry_states,
     }, COMMON_ASSUMPTIONS + [
-        "fault manifestations injected by the table-driven stage code: _errors, _assert, truncated _outs, missing output key, wrong JSON type, malformed _stage_defs; exit-status-only and signal deaths are produced by real stage processes under mrjob with the real mrp and its default automatic retry (4 process runs)",
+        "fault manifestations injected by the table-driven stage code: a job that sends a heartbeat and vanishes (the driver lets the heartbeat time-out pass through the verif export VerifAgeHeartbeats), _errors, _assert, truncated _outs, missing output key, wrong JSON type, malformed _stage_defs; exit-status-only and signal deaths are produced by real stage processes under mrjob with the real mrp and its default automatic retry (4 process runs)",
         "after the failure mrp's exit is modelled as in cmd/mrp: Unlock, local jobs die; then a fresh Runtime re-attaches (ReattachToPipestance, Reset, RestartLocalJobs) with the fault removed",
         "'independent calls are unaffected' is checked in its minimal reading: results recorded before the failure are not executed again and the restarted run completes with the reference outputs",
     ], time.time() - t0, violations=nunk)
